@@ -270,4 +270,61 @@ theorem dedupTables_of_nodup (E : Enc) (cs : Classes) (c : Str) (s : St)
   simp only [dedup_of_nodup _ h1, dedup_of_nodup _ h2]
   rfl
 
+/-! ### when no row is repeated -/
+
+theorem htabRows_snd (E : Enc) (r : HandlerRecord) (h : Nat) (p : HKey × Nat) (hm : p ∈ htabRows E r h) : p.2 = h := by
+  unfold htabRows at hm
+  split at hm
+  · split at hm
+    · cases hm
+    · simp only [List.mem_singleton] at hm; rw [hm]
+  · simp only [List.mem_map] at hm
+    obtain ⟨_, _, rfl⟩ := hm; rfl
+
+theorem htabRows_nodup (E : Enc) (r : HandlerRecord) (h : Nat) (hn : (r.names.map E.name).Nodup) : (htabRows E r h).Nodup := by
+  unfold htabRows
+  split
+  · split
+    · exact List.nodup_nil
+    · simp
+  · have : (r.names.map fun n => ((some (E.name n) : HKey), h)) = (r.names.map E.name).map fun n => ((some n : HKey), h) := by
+      rw [List.map_map]; rfl
+    rw [this]
+    exact List.Pairwise.map _ (fun a b hab h' => hab (by cases h'; rfl)) hn
+
+theorem tableOf_nodup (E : Enc) (base : Nat) : ∀ (recs : List HandlerRecord), (∀ r ∈ recs, (r.names.map E.name).Nodup) →
+    ∀ j, (tableOf E base j recs).Nodup := by
+  intro recs
+  induction recs with
+  | nil => intro _ j; simp [tableOf]
+  | cons r rs ih =>
+    intro hn j
+    simp only [tableOf]
+    rw [List.nodup_append]
+    refine ⟨htabRows_nodup E r _ (hn r (by simp)), ih (fun r' hr' => hn r' (List.mem_cons_of_mem _ hr')) _, ?_⟩
+    intro a ha b hb hab
+    subst hab
+    have h1 := htabRows_snd E r _ a ha
+    obtain ⟨i, r', _, h2, _⟩ := (mem_tableOf E base a.1 a.2 rs (j + 1)).mp hb
+    omega
+
+theorem globalsOf_nodup (base : Nat) : ∀ (recs : List HandlerRecord) (j : Nat), (globalsOf base j recs).Nodup := by
+  intro recs
+  induction recs with
+  | nil => intro j; simp [globalsOf]
+  | cons r rs ih =>
+    intro j
+    simp only [globalsOf]
+    rw [List.nodup_append]
+    refine ⟨by unfold globalRows; split <;> simp, ih _, ?_⟩
+    intro a ha b hb hab
+    subst hab
+    have h1 : a = base + j := by
+      unfold globalRows at ha
+      split at ha
+      · simpa using ha
+      · cases ha
+    obtain ⟨i, r', _, h2, _⟩ := (mem_globalsOf base a rs (j + 1)).mp hb
+    omega
+
 end CV.ClassTable
